@@ -27,6 +27,7 @@ func runC10(p *core.Prog, r *core.Report) {
 	c10R4(p, r)
 	c10R5(p, r)
 	staleIndexRule(p, r, "C10.R6")
+	c10R7(p, r)
 }
 
 func c10R1(p *core.Prog, r *core.Report) {
@@ -484,5 +485,44 @@ func c10R5(p *core.Prog, r *core.Report) {
 			}
 			r.Check(ok, rule, fname, lab.next("loop exit"), pos, detail)
 		}
+	}
+}
+
+// ---------------------------------------------------------------------------------------------
+// R7 the manifest handed to a delete has a body
+
+func c10R7(p *core.Prog, r *core.Report) {
+	const rule = "C10.R7"
+	r.Rule(rule, "a manifest passed along with WithManifest (so that ManifestDelete can find its subject and update the subject's referrers) never comes from ManifestHead: a head response has no body, GetSubject fails on it, and the delete then silently skips the referrers bookkeeping", 1)
+	isWith := func(f *types.Func) bool {
+		return core.IsModFunc(f, ".", "WithManifest") || core.IsModFunc(f, "scheme", "WithManifest")
+	}
+	n := 0
+	for _, fn := range p.ModFuncs {
+		if fn.Synthetic != "" {
+			continue
+		}
+		lab := labeler{}
+		for _, c := range core.CallsTo(fn, isWith) {
+			n++
+			label := lab.next("WithManifest argument")
+			bad := ""
+			for _, o := range core.Origins(core.CallArg(c, 0), core.SliceOpts{}) {
+				if o.Kind != core.OCall || (o.Res != 0 && o.Res != -1) {
+					continue
+				}
+				if cal := o.Callee(); cal != nil && cal.Name() == "ManifestHead" {
+					bad = p.Pos(o.Call.Pos())
+				}
+			}
+			if bad != "" {
+				r.Violated(rule, p.FuncName(fn), label, p.Pos(c.Pos()), "the manifest comes from the ManifestHead at "+bad+" and has no body")
+			} else {
+				r.Held(rule, p.FuncName(fn), label, p.Pos(c.Pos()), "not a head response")
+			}
+		}
+	}
+	if n == 0 {
+		r.Held(rule, "module", "WithManifest is not used", "", "every delete fetches the manifest itself")
 	}
 }
